@@ -10,6 +10,45 @@ from ..idioms import cname, where
 from ..re_model import BCLS, BMOD, REModel
 
 
+def d3_emitters_use_current_bundle(ctx, rm: REModel):
+    """'subsequent events of every stream containing it reference a new descriptor': configure replaces self._descriptors[name];
+    an emitter that outlives the call that created it (the monitor callback) must take compose_event from the bundle that is
+    current WHEN the event is composed - a compose function captured from the enclosing scope is the first descriptor's for ever."""
+    rule = "C16.D3-emitters-use-the-current-descriptor"
+    mon = rm.b("monitor")
+    inner = [n for n in ast.walk(mon.node) if isinstance(n, (ast.FunctionDef, ast.AsyncFunctionDef)) and n is not mon.node]
+    emitters = [f for f in inner if any(A.find_calls(s, "emit_sync") or A.find_calls(s, "emit") for s in A.walk_stmts(f.body))]
+    ctx.ob(rule, cname(mon, None, "the monitor callback is a closure that emits events"), len(emitters) == 1,
+           "" if len(emitters) == 1 else f"{len(emitters)} emitting closures found", where=where(mon, mon.node))
+    for f in emitters:
+        # the call that composes the event: doc = <X>(data=..., timestamps=...)
+        comp = [c for s in A.walk_stmts(f.body) for c in A.calls_in(s) if any(k.arg == "timestamps" for k in c.keywords) and any(k.arg == "data" for k in c.keywords)]
+        ctx.ob(rule, cname(mon, None, "one compose call in the monitor callback"), len(comp) == 1, "" if len(comp) == 1 else f"{len(comp)} compose calls", where=where(mon, f))
+        for c in comp:
+            fn = c.func
+            if isinstance(fn, ast.Name):
+                local_defs = [s for s in A.walk_stmts(f.body) if isinstance(s, ast.Assign) and any(isinstance(t, ast.Name) and t.id == fn.id for t in s.targets)]
+                from_current = bool(local_defs) and all("self._descriptors" in A.norm(d.value) or any(
+                    isinstance(n, ast.Name) and any(isinstance(s2, ast.Assign) and any(isinstance(t, ast.Name) and t.id == n.id for t in s2.targets) and "self._descriptors" in A.norm(s2.value)
+                                                    for s2 in A.walk_stmts(f.body)) for n in ast.walk(d.value)) for d in local_defs)
+                captured = not local_defs
+            else:
+                from_current = "self._descriptors" in A.norm(fn)
+                captured = False
+            ok = from_current and not captured
+            ctx.ob(rule, cname(mon, None, "compose_event is looked up in self._descriptors when the event is made"), ok,
+                   "" if ok else ("the compose function is captured from the enclosing monitor() call" if captured else "the compose function does not come from self._descriptors")
+                   + ": after `configure` re-makes the stream's descriptor the monitor's events still reference the old one", nontrivial=True, where=where(mon, c))
+    # the other emitters are methods: they look the bundle up per call
+    for nm in ("save", "_collect_events", "_collect_event_pages"):
+        f = rm.repo.funcs.get(f"bluesky.bundlers:RunBundler.{nm}")
+        if f is None:
+            continue
+        t = A.norm(f.node)
+        ok = "self._descriptors[" in t or "self._prepare_stream(" in t or "local_descriptors[" in t
+        ctx.ob(rule, cname(f, None, "per-call lookup of the descriptor bundle"), ok, "" if ok else "no lookup of the current bundle", where=where(f, f.node))
+
+
 def run(ctx):
     rm = REModel(ctx.repo)
     repo = rm.repo
@@ -17,7 +56,8 @@ def run(ctx):
         "Decided: D1 RunBundler.configure re-reads the object's configuration before re-preparing, visits every stream whose "
         "descriptor contains the object, drops the old compose bundle and prepares a new descriptor with the same object set / data "
         "keys; D2 _prepare_stream builds configuration[obj.name] from the three per-object configuration caches (def-use), the caches "
-        "are written only by the cache helpers, and RunEngine._configure configures the device before telling the bundler. "
+        "are written only by the cache helpers, and RunEngine._configure configures the device before telling the bundler; D3 the "
+        "monitor callback composes its events against the bundle that is current when the event is made (F-17). "
         "Not decided: configuration values; data-key equality is enforced at run time by event_model.")
     cf = rm.b("configure")
     g = q.cfg(cf, q.quiet_policy(repo))
@@ -95,16 +135,20 @@ def run(ctx):
     ok = "obj not in self._config_desc_cache" in A.norm(ec.node) and "self._cache_read_config(obj)" in A.norm(ec.node) and "self._cache_describe_config(obj)" in A.norm(ec.node)
     ctx.ob("C16.D2-configuration-from-caches", cname(ec, None, "first use of an object caches its configuration"), ok, "" if ok else "configuration never cached", where=where(ec, ec.node))
 
+    d3_emitters_use_current_bundle(ctx, rm)
+
 
 CLAIM = {
     "text": "Decides that configuring an object mid-run re-reads its configuration before every stream containing it gets a new descriptor for the "
             "same object set, that a descriptor's configuration entry is built from that object's three configuration caches, that those "
-            "caches have closed-world writers, and that the device is configured before the bundler re-reads it. Values are not decided.",
+            "caches have closed-world writers, that the device is configured before the bundler re-reads it, and that the long-lived monitor "
+            "callback looks the descriptor bundle up when it composes an event (the stale capture fixed in /repo as F-17 would be reported again). Values are not decided.",
     "technique": "dominance on the method CFG; def-use of the configuration entry; ownership tables",
 }
 
 BU = "bundlers.py"
 MUTANTS = [
+    ("monitor callback captures the first descriptor's compose_event (revert of F-17)", [(BU, "            bundle = self._descriptors.get(name)\n            compose_event = bundle.compose_event if bundle is not None else stream_bundle[1]\n", ""), (BU, "        self._unreplayed_streams.add(name)\n\n        def emit_event(", "        self._unreplayed_streams.add(name)\n        compose_event = stream_bundle[1]\n\n        def emit_event(")], "C16.D3"),
     ("configuration not re-read", [(BU, "        obj = msg.obj\n        await self._cache_read_config(obj)\n", "        obj = msg.obj\n")], "C16.D1"),
     ("only the first stream refreshed", [(BU, "                await self._prepare_stream(name, obj_set)\n                continue", "                await self._prepare_stream(name, obj_set)\n                break")], "C16.D1"),
     ("old descriptor bundle kept", [(BU, "                del self._descriptors[name]\n                await self._prepare_stream(name, obj_set)", "                pass")], "C16.D1"),
